@@ -335,7 +335,7 @@ func briefDatum(d ref.Datum) string {
 
 func c05Verdict(w *iso.Worker, c c05Case) (c05Result, error) {
 	var res c05Result
-	resp, outcome, text := w.Call("c05", c, 30*time.Second)
+	resp, outcome, text := callTwice(w, "c05", c, 30*time.Second)
 	if outcome != iso.Returned {
 		return res, fmt.Errorf("decoding %s into %s (%s): %s", c.X.Kind, c.G.GoString(), c.Pos, iso.Describe(outcome, resp, text))
 	}
